@@ -20,7 +20,9 @@ RULE = ("A real AsyncServiceBrowser (1..2 types, delay 1/10/60 s, question type 
         "query at 75 % (+ at most delay) and at each further 10 % step - the last step, whose lateness allowance runs past the expiry "
         "when the delay exceeds 5 % of the TTL, is owed before the expiry unless a scheduler pass (read-only hook on "
         "QueryScheduler._process_ready_types, also passes that send nothing) started a spacing interval that covers the expiry; "
-        "hence no expiry without refresh attempt. Distinct = (learn "
+        "hence no expiry without refresh attempt. 3 % of the histories are long 'churn' histories: an instance with a TTL of up to a day, "
+        "one re-announced every 30..120 s for 40..90 rounds (dozens of superseded schedule entries) and late joiners with short TTLs; "
+        "15 % start the browser late, with a pointer already cached whose 75 % instant falls into the start-up queries. Distinct = (learn "
         "order, fate, delay, #types, forced type) classes.")
 ASSUMPTIONS = ["lateness bound for the 75 % query: the configured delay (+1 ms float slack), a query between 1x and 2x delay late is reported (known finding F22 when explained by churn rule + spacing); earliness bound: the delay (churn-avoidance rule)",
                "records whose 75 % instant falls before the end of the start-up phase (+delay) are not judged for liveness"]
@@ -69,7 +71,25 @@ def eff_ttl(ttl: int) -> int:
     return ttl if (ttl == 0 or ttl >= 1125) else 1125
 
 
+def gen_churn(rng: random.Random) -> Dict[str, Any]:
+    """A long-running browser: one instance with a very long TTL, one that is re-announced far more often than its TTL requires
+    (dozens of superseded schedule entries), and late joiners with short TTLs that are then left to expire."""
+    tp = TYPES[0]
+    events: List[Dict[str, Any]] = [{"t": 50, "type": tp, "alias": "nas." + tp, "ttl": rng.choice([86400, 43200, 9000]), "what": "learn", "fate": "expire"}]
+    period = rng.choice([30000, 60000, 120000])
+    n = rng.choice([40, 60, 90])
+    for k in range(n + 1):
+        events.append({"t": 50 + k * period, "type": tp, "alias": "chatty." + tp, "ttl": rng.choice([4500, 4500, 1200]), "what": "learn" if k == 0 else "refresh", "fate": "refresh"})
+    for j in range(rng.choice([1, 2, 3])):
+        events.append({"t": rng.choice([300, 900, 1500, 2100, 2700, 3300]) * 1000 + rng.choice([0, 50, 7000]), "type": tp, "alias": "cam%d.%s" % (j, tp),
+                       "ttl": rng.choice([1125, 1200, 2000, 4500]), "what": "learn", "fate": "expire"})
+    events.sort(key=lambda ev: ev["t"])
+    return {"types": [tp], "delay": rng.choice([1000, 10000]), "forced": None, "events": events, "order": "churn", "prestart": False}
+
+
 def gen_scenario(rng: random.Random) -> Dict[str, Any]:
+    if rng.random() < 0.03:
+        return gen_churn(rng)
     ntypes = rng.choice([1, 1, 2])
     types = TYPES[:ntypes]
     delay = rng.choice([1000, 10000, 10000, 60000])
